@@ -89,6 +89,29 @@ Theorem c07_declare_idempotent :
          gc m = Ok m1 -> declare_referenced_funcs m1 = Ok m1 /\ (gc_sweep m1 = Ok m1 -> gc m1 = Ok m1).
 Proof. exact gc_declare_idempotent_partial. Qed.
 
+(* ---- idempotence at MODULE level: a second run of the pass returns the very same module (records, not just sets): the used-analysis of
+   the swept module is the identical list, a sweep whose keep-list contains every live id returns the arena itself, the declared segment of
+   the declaration step is a root and is not added twice.  The only premise - no tombstone on a not-yet-allocated element id - holds for
+   every module built by arena operations (witness for its necessity: an arena no operation sequence can build). *)
+From WV Require Import Proofs.GcIdem.
+Theorem c07_sweep_idempotent :
+  forall m m1 : wir, gc_sweep m = Ok m1 -> gc_sweep m1 = Ok m1.
+Proof. exact gc_sweep_idempotent. Qed.
+
+Theorem c07_gc_idempotent :
+  forall (cf : config) (ver : str) (w : wmod) (s : pst) (m1 : wir),
+         parseM cf ver w = POk s -> gc (ps_m s) = Ok m1 -> gc m1 = Ok m1.
+Proof. exact gc_idempotent_after_parse. Qed.
+
+Theorem c07_gc_idempotent_wf :
+  forall m m1 : wir, dead_in_range (m_elements m) -> gc m = Ok m1 -> gc m1 = Ok m1.
+Proof. exact gc_idempotent_partial. Qed.
+
+Theorem c07_gc_idempotent_needs_wellformed_arena :
+  exists m m1 m2 : wir, gc m = Ok m1 /\ gc m1 = Ok m2 /\ m2 <> m1.
+Proof. exact gc_idempotent_refuted. Qed.
+
+
 Print Assumptions c07_used_is_reachable_set.
 Print Assumptions c07_no_fuel_exhaustion.
 Print Assumptions c07_precise.
@@ -97,3 +120,7 @@ Print Assumptions c07_idempotent_sets.
 Print Assumptions c07_source_skeleton.
 Print Assumptions c07_new_segment_is_root.
 Print Assumptions c07_declare_idempotent.
+Print Assumptions c07_sweep_idempotent.
+Print Assumptions c07_gc_idempotent.
+Print Assumptions c07_gc_idempotent_wf.
+Print Assumptions c07_gc_idempotent_needs_wellformed_arena.
